@@ -44,7 +44,16 @@ type vc17Runner struct {
 	err       error
 	promptLen int
 	calls     int
+	// faults outside Completion: the method fails whenever it is called during the request
+	loadErr, tokErr, detokErr error
 }
+
+const (
+	vc17LoadMsg  = "load failed: runner gone"
+	vc17TokMsg   = "tokenize failed: runner gone"
+	vc17DetokMsg = "detokenize failed: runner gone"
+	vc17BoomMsg  = "runner failed: boom"
+)
 
 func (m *vc17Runner) Completion(_ context.Context, r llm.CompletionRequest, fn func(llm.CompletionResponse)) error {
 	m.promptLen = len(r.Prompt)
@@ -57,7 +66,18 @@ func (m *vc17Runner) Completion(_ context.Context, r llm.CompletionRequest, fn f
 
 // Tokenize: the harness tokenizer s -> [len s] (the model records the same number)
 func (m *vc17Runner) Tokenize(_ context.Context, s string) ([]int, error) {
+	if m.tokErr != nil {
+		return nil, m.tokErr
+	}
 	return []int{len(s)}, nil
+}
+
+// Detokenize: a fixed text for any supplied context
+func (m *vc17Runner) Detokenize(_ context.Context, _ []int) (string, error) {
+	if m.detokErr != nil {
+		return "", m.detokErr
+	}
+	return "earlier turn. ", nil
 }
 
 // ---------------------------------------------------------------- decoded observations
@@ -390,6 +410,10 @@ func vc17Setup(t *testing.T) *vc17H {
 			// the runner is handed over directly: nothing is recorded as loaded, so no
 			// keep-alive / expiry timer is ever armed and no wall-clock time is involved
 			loadFn: func(req *LlmRequest, _ *ggml.GGML, _ discover.GpuInfoList, _ int) {
+				if run.loadErr != nil {
+					req.errCh <- run.loadErr
+					return
+				}
 				req.successCh <- &runnerRef{llama: run}
 			},
 		},
@@ -483,9 +507,10 @@ type vc17Group struct {
 	doneB  bool   // ok: the last content chunk itself carries done (instead of a separate empty done chunk)
 	pec    int
 	ec     int
-	reason int  // llm.DoneReason of the done chunk
-	nz     bool // non-final chunks carry (irrelevant) non-zero counts
-	fmtJS  bool // requests ask for format json
+	reason int    // llm.DoneReason of the done chunk
+	nz     bool   // non-final chunks carry (irrelevant) non-zero counts
+	fmtJS  bool   // requests ask for format json
+	fault  string // none | load | detok | tok: runner method that fails outside Completion
 }
 
 func (g vc17Group) String() string {
@@ -493,8 +518,40 @@ func (g vc17Group) String() string {
 	for i, p := range g.pieces {
 		ps[i] = zzverif.Hex([]byte(p))
 	}
-	return fmt.Sprintf("grp pieces=%s mask=%d end=%s k=%d doneB=%s pec=%d ec=%d reason=%d nz=%s fmt=%s",
-		strings.Join(ps, ","), g.mask, g.end, g.k, vc17B(g.doneB), g.pec, g.ec, g.reason, vc17B(g.nz), vc17B(g.fmtJS))
+	return fmt.Sprintf("grp pieces=%s mask=%d end=%s k=%d doneB=%s pec=%d ec=%d reason=%d nz=%s fmt=%s fault=%s",
+		strings.Join(ps, ","), g.mask, g.end, g.k, vc17B(g.doneB), g.pec, g.ec, g.reason, vc17B(g.nz), vc17B(g.fmtJS), g.flt())
+}
+
+func (g vc17Group) flt() string {
+	if g.fault == "" {
+		return "none"
+	}
+	return g.fault
+}
+
+// expectErr: the error the request must report (""= none), from which method fails and which
+// methods the request shape makes the handler call
+func (g vc17Group) expectErr(s vc17Shape) string {
+	gen := s.ep == "gen" || s.ep == "oacmpl" || s.ep == "cgen"
+	switch g.flt() {
+	case "load":
+		return vc17LoadMsg
+	case "detok":
+		if gen && s.ctx {
+			return vc17DetokMsg
+		}
+	case "tok":
+		if !gen && s.ctx {
+			return vc17TokMsg // chatPrompt measures earlier messages
+		}
+		if gen && !s.raw && g.end == "ok" {
+			return vc17TokMsg // `context` of the done message
+		}
+	}
+	if g.end == "err" {
+		return vc17BoomMsg
+	}
+	return ""
 }
 
 func vc17ParseGroup(line string) (vc17Group, error) {
@@ -520,6 +577,7 @@ func vc17ParseGroup(line string) (vc17Group, error) {
 	g.reason, _ = strconv.Atoi(kv["reason"])
 	g.nz = kv["nz"] == "1"
 	g.fmtJS = kv["fmt"] == "1"
+	g.fault = kv["fault"]
 	return g, nil
 }
 
@@ -563,7 +621,7 @@ func (g vc17Group) chunks() ([]llm.CompletionResponse, error) {
 		}
 		return out, nil
 	case "err":
-		return out, errors.New("runner failed: boom")
+		return out, errors.New(vc17BoomMsg)
 	}
 	return out, nil // silent: Completion returns nil without a done chunk
 }
@@ -575,10 +633,15 @@ type vc17Shape struct {
 	tools  bool
 	usage  bool
 	model  string
+	ctx    bool // generate: the request supplies `context` (Detokenize is called); chat: earlier turns (chatPrompt calls Tokenize)
 }
 
 func (s vc17Shape) String() string {
-	return fmt.Sprintf("%s/s%d/r%s/t%s/u%s/%s", s.ep, s.stream, vc17B(s.raw), vc17B(s.tools), vc17B(s.usage), s.model)
+	r := fmt.Sprintf("%s/s%d/r%s/t%s/u%s/%s", s.ep, s.stream, vc17B(s.raw), vc17B(s.tools), vc17B(s.usage), s.model)
+	if s.ctx {
+		r += "/ctx"
+	}
+	return r
 }
 
 func (s vc17Shape) streaming() bool {
@@ -592,19 +655,25 @@ var vc17Shapes = []vc17Shape{
 	{ep: "gen", stream: 1, model: vc17Plain}, {ep: "gen", stream: 0, model: vc17Plain},
 	{ep: "gen", stream: 1, raw: true, model: vc17Plain}, {ep: "gen", stream: 0, raw: true, model: vc17Plain},
 	{ep: "gen", stream: 2, model: vc17Tools},
+	{ep: "gen", stream: 1, ctx: true, model: vc17Plain}, {ep: "gen", stream: 0, ctx: true, model: vc17Plain},
 	{ep: "chat", stream: 1, model: vc17Plain}, {ep: "chat", stream: 0, model: vc17Plain},
 	{ep: "chat", stream: 2, model: vc17Tools}, {ep: "chat", stream: 0, model: vc17Tools},
 	{ep: "chat", stream: 1, tools: true, model: vc17Tools}, {ep: "chat", stream: 0, tools: true, model: vc17Tools},
 	{ep: "chat", stream: 2, tools: true, model: vc17Tools},
+	{ep: "chat", stream: 1, ctx: true, model: vc17Plain}, {ep: "chat", stream: 0, ctx: true, model: vc17Plain},
+	{ep: "chat", stream: 1, tools: true, ctx: true, model: vc17Tools},
 	{ep: "oachat", stream: 1, model: vc17Plain}, {ep: "oachat", stream: 0, model: vc17Plain},
 	{ep: "oachat", stream: 1, usage: true, model: vc17Plain}, {ep: "oachat", stream: 2, usage: true, model: vc17Tools},
 	{ep: "oachat", stream: 1, tools: true, model: vc17Tools}, {ep: "oachat", stream: 0, tools: true, model: vc17Tools},
 	{ep: "oachat", stream: 1, tools: true, usage: true, model: vc17Tools},
+	{ep: "oachat", stream: 1, ctx: true, model: vc17Plain}, {ep: "oachat", stream: 0, ctx: true, model: vc17Plain},
 	{ep: "oacmpl", stream: 1, model: vc17Plain}, {ep: "oacmpl", stream: 0, model: vc17Plain},
 	{ep: "oacmpl", stream: 1, usage: true, model: vc17Plain}, {ep: "oacmpl", stream: 2, model: vc17Tools},
 	{ep: "cgen", stream: 1, model: vc17Plain}, {ep: "cgen", stream: 0, model: vc17Plain},
+	{ep: "cgen", stream: 1, ctx: true, model: vc17Plain},
 	{ep: "cchat", stream: 1, model: vc17Plain}, {ep: "cchat", stream: 0, model: vc17Plain},
 	{ep: "cchat", stream: 1, tools: true, model: vc17Tools}, {ep: "cchat", stream: 0, tools: true, model: vc17Tools},
+	{ep: "cchat", stream: 1, ctx: true, model: vc17Plain},
 }
 
 // result of one request
@@ -648,11 +717,14 @@ func (h *vc17H) body(s vc17Shape, g vc17Group) []byte {
 		if s.raw {
 			m["raw"] = true
 		}
+		if s.ctx {
+			m["context"] = []int{3, 1, 4}
+		}
 		if g.fmtJS {
 			m["format"] = "json"
 		}
 	case "chat":
-		m["messages"] = []map[string]any{{"role": "user", "content": "What is the weather in Paris?"}}
+		m["messages"] = vc17Msgs(s)
 		if s.tools {
 			m["tools"] = vc17ToolDefs
 		}
@@ -660,7 +732,7 @@ func (h *vc17H) body(s vc17Shape, g vc17Group) []byte {
 			m["format"] = "json"
 		}
 	case "oachat":
-		m["messages"] = []map[string]any{{"role": "user", "content": "What is the weather in Paris?"}}
+		m["messages"] = vc17Msgs(s)
 		if s.tools {
 			m["tools"] = vc17ToolDefs
 		}
@@ -683,10 +755,19 @@ func (h *vc17H) body(s vc17Shape, g vc17Group) []byte {
 	return b
 }
 
+func vc17Msgs(s vc17Shape) []map[string]any {
+	last := map[string]any{"role": "user", "content": "What is the weather in Paris?"}
+	if s.ctx {
+		return []map[string]any{{"role": "user", "content": "Hi"}, {"role": "assistant", "content": "Hello."}, last}
+	}
+	return []map[string]any{last}
+}
+
 var vc17Paths = map[string]string{"gen": "/api/generate", "chat": "/api/chat", "oachat": "/v1/chat/completions", "oacmpl": "/v1/completions"}
 
 func (h *vc17H) request(s vc17Shape, g vc17Group) vc17Res {
 	before := h.run.calls
+	h.run.promptLen = 0
 	var res vc17Res
 	switch s.ep {
 	case "cgen", "cchat":
@@ -702,10 +783,18 @@ func (h *vc17H) request(s vc17Shape, g vc17Group) vc17Res {
 		}
 		var err error
 		if s.ep == "cgen" {
-			err = h.client.Generate(context.Background(), &api.GenerateRequest{Model: s.model, Prompt: "Why is the sky blue?", Stream: stream, Raw: s.raw, Format: format},
+			greq := &api.GenerateRequest{Model: s.model, Prompt: "Why is the sky blue?", Stream: stream, Raw: s.raw, Format: format}
+			if s.ctx {
+				greq.Context = []int{3, 1, 4}
+			}
+			err = h.client.Generate(context.Background(), greq,
 				func(r api.GenerateResponse) error { res.evs = append(res.evs, vc17GenEv(r, s.model)); return nil })
 		} else {
-			req := &api.ChatRequest{Model: s.model, Messages: []api.Message{{Role: "user", Content: "What is the weather in Paris?"}}, Stream: stream, Format: format}
+			var cmsgs []api.Message
+			for _, m := range vc17Msgs(s) {
+				cmsgs = append(cmsgs, api.Message{Role: m["role"].(string), Content: m["content"].(string)})
+			}
+			req := &api.ChatRequest{Model: s.model, Messages: cmsgs, Stream: stream, Format: format}
 			if s.tools {
 				if err := json.Unmarshal(vc17ToolDefs, &req.Tools); err != nil {
 					h.t.Fatal(err)
@@ -752,16 +841,27 @@ func (h *vc17H) request(s vc17Shape, g vc17Group) vc17Res {
 			res.evs = append(res.evs, vc17Oa(raw, false))
 		}
 	}
-	if h.run.calls != before+1 {
-		res.evs = append(res.evs, vc17Ev{tag: fmt.Sprintf("?runner-calls=%d", h.run.calls-before)})
+	// Completion runs exactly once for a request that gets as far as streaming / replying 200
+	if n := h.run.calls - before; n > 1 || (n != 1 && (res.client && res.cerr == "" || !res.client && res.status == 200)) {
+		res.evs = append(res.evs, vc17Ev{tag: fmt.Sprintf("?runner-calls=%d", n)})
 	}
 	return res
 }
 
-func (h *vc17H) op(s vc17Shape, chunks []llm.CompletionResponse, runErr error, table string) string {
+func (h *vc17H) op(s vc17Shape, g vc17Group, chunks []llm.CompletionResponse, runErr error, table string) string {
 	var b strings.Builder
 	ep := s.ep
-	fmt.Fprintf(&b, "run %d %s %s %s %s %s %d ", zzverif.EnvInt("VERIF_C17_VARIANT", 0), ep, vc17B(s.streaming()), vc17B(s.raw), vc17B(s.tools), vc17B(s.usage), h.run.promptLen)
+	fmt.Fprintf(&b, "run %d %s %s %s %s %s %s %d ", zzverif.EnvInt("VERIF_C17_VARIANT", 0), ep, vc17B(s.streaming()), vc17B(s.raw), vc17B(s.tools), vc17B(s.usage), vc17B(s.ctx), h.run.promptLen)
+	switch g.flt() {
+	case "load":
+		b.WriteString("load:" + zzverif.Hex([]byte(vc17LoadMsg)) + " ")
+	case "detok":
+		b.WriteString("detok:" + zzverif.Hex([]byte(vc17DetokMsg)) + " ")
+	case "tok":
+		b.WriteString("tok:" + zzverif.Hex([]byte(vc17TokMsg)) + " ")
+	default:
+		b.WriteString("none ")
+	}
 	if runErr != nil {
 		b.WriteString("err:" + zzverif.Hex([]byte(runErr.Error())))
 	} else {
@@ -819,6 +919,15 @@ func (h *vc17H) table(chunks []llm.CompletionResponse) (string, bool) {
 func (h *vc17H) runGroup(g vc17Group) {
 	chunks, runErr := g.chunks()
 	h.run.chunks, h.run.err = chunks, runErr
+	h.run.loadErr, h.run.tokErr, h.run.detokErr = nil, nil, nil
+	switch g.flt() {
+	case "load":
+		h.run.loadErr = errors.New(vc17LoadMsg)
+	case "tok":
+		h.run.tokErr = errors.New(vc17TokMsg)
+	case "detok":
+		h.run.detokErr = errors.New(vc17DetokMsg)
+	}
 	table, early := h.table(chunks)
 	results := map[string]vc17Res{}
 	for _, s := range vc17Shapes {
@@ -827,13 +936,14 @@ func (h *vc17H) runGroup(g vc17Group) {
 		if s.tools {
 			tbl = table
 		}
-		h.out.Case(h.op(s, chunks, runErr, tbl), res.canon())
+		h.out.Case(h.op(s, g, chunks, runErr, tbl), res.canon())
 		results[s.String()] = res
 		h.out.Count("cases")
 		h.out.Count("shape_" + s.ep + "_s" + strconv.Itoa(s.stream))
 	}
 	h.out.Count("groups")
 	h.out.Count("end_" + g.end)
+	h.out.Count("fault_" + g.flt())
 	if g.doneB {
 		h.out.Count("done_chunk_has_content")
 	}
@@ -910,7 +1020,7 @@ func vc17Fin(e *vc17Ev) string {
 func (h *vc17H) monitors(g vc17Group, chunks []llm.CompletionResponse, results map[string]vc17Res, early bool) {
 	gl := g.String()
 	fail := func(kind string, s vc17Shape, detail string) {
-		h.out.L2(kind, gl+" shape="+s.String(), fmt.Sprintf("end=%s early=%s doneB=%s %s", g.end, vc17B(early), vc17B(g.doneB), detail))
+		h.out.L2(kind, gl+" shape="+s.String(), fmt.Sprintf("end=%s early=%s doneB=%s fault=%s %s", g.end, vc17B(early), vc17B(g.doneB), g.flt(), detail))
 	}
 	get := func(s vc17Shape) vc17Res { return results[s.String()] }
 	want := ""
@@ -921,6 +1031,7 @@ func (h *vc17H) monitors(g vc17Group, chunks []llm.CompletionResponse, results m
 
 	for _, s := range vc17Shapes {
 		res := get(s)
+		exp := g.expectErr(s)
 		for _, e := range res.evs {
 			if strings.HasPrefix(e.tag, "?") {
 				fail("malformed-response", s, e.tag)
@@ -930,17 +1041,31 @@ func (h *vc17H) monitors(g vc17Group, chunks []llm.CompletionResponse, results m
 		// --- a native stream ends with exactly one final message or one error
 		if native && s.streaming() {
 			a := vc17Aggregate(res.evs)
-			if res.status != 200 {
-				fail("stream-status", s, fmt.Sprintf("status=%d", res.status))
+			// 200 + NDJSON, or (failure before anything was streamed) one 500 error body
+			if res.status != 200 && !(res.status == 500 && len(res.evs) == 1 && res.evs[0].tag == "e") {
+				fail("stream-status", s, fmt.Sprintf("status=%d bodies=%d", res.status, len(res.evs)))
 			}
 			if a.finals != 1 || !a.lastFin {
 				fail("one-final", s, fmt.Sprintf("terminal-events=%d last-is-terminal=%v events=%d", a.finals, a.lastFin, len(res.evs)))
 			}
-			if g.end == "err" && (len(a.errs) != 1 || a.errs[0] != "runner failed: boom") {
-				fail("error-lost", s, fmt.Sprintf("errors=%q", a.errs))
+			if exp != "" && (len(a.errs) != 1 || a.errs[0] != exp) {
+				fail("error-lost", s, fmt.Sprintf("errors=%q want %q", a.errs, exp))
 			}
-			if g.end != "err" && len(a.errs) != 0 {
+			if exp == "" && len(a.errs) != 0 {
 				fail("spurious-error", s, fmt.Sprintf("errors=%q", a.errs))
+			}
+			// same outcome as the non-streamed twin (expectation-free): it fails iff the stream carries
+			// exactly that error
+			o := s
+			o.stream = 0
+			if once, have := results[o.String()]; have && len(once.evs) == 1 {
+				onceErr := ""
+				if once.evs[0].tag == "e" {
+					onceErr = once.evs[0].text
+				}
+				if (once.status == 200) != (onceErr == "") || strings.Join(a.errs, "|") != onceErr {
+					fail("stream-once-outcome", s, fmt.Sprintf("stream errors=%q done-messages=%d; non-streamed status=%d error=%q", a.errs, a.finals-len(a.errs), once.status, onceErr))
+				}
 			}
 		}
 		// --- non-stream native: one body; the error of a failed run is reported
@@ -950,8 +1075,8 @@ func (h *vc17H) monitors(g vc17Group, chunks []llm.CompletionResponse, results m
 				continue
 			}
 			e := res.evs[0]
-			if g.end == "err" {
-				if res.status != 500 || e.tag != "e" || e.text != "runner failed: boom" {
+			if exp != "" {
+				if res.status != 500 || e.tag != "e" || e.text != exp {
 					fail("error-lost", s, fmt.Sprintf("status=%d body=%s", res.status, e))
 				}
 			} else {
@@ -978,7 +1103,7 @@ func (h *vc17H) monitors(g vc17Group, chunks []llm.CompletionResponse, results m
 			}
 		}
 		// --- stream concatenation == non-stream reply (same endpoint, same request otherwise)
-		if native && s.streaming() && g.end != "err" {
+		if native && s.streaming() && exp == "" {
 			o := s
 			o.stream = 0
 			once, have := results[o.String()]
@@ -1052,8 +1177,8 @@ func (h *vc17H) monitors(g vc17Group, chunks []llm.CompletionResponse, results m
 					continue
 				}
 				e := res.evs[0]
-				if g.end == "err" {
-					if res.status != 500 || e.tag != "E" || e.text != "runner failed: boom" {
+				if exp != "" {
+					if res.status != 500 || e.tag != "E" || e.text != exp {
 						fail("openai-error-lost", s, fmt.Sprintf("status=%d body=%s", res.status, e))
 					}
 					continue
@@ -1105,13 +1230,13 @@ func (h *vc17H) monitors(g vc17Group, chunks []llm.CompletionResponse, results m
 			if !((dones == 1 && lastDone && errsOa == 0) || (dones == 0 && errsOa == 1)) {
 				fail("openai-one-final", s, fmt.Sprintf("[DONE]=%d last-is-[DONE]=%v error-objects=%d events=%d", dones, lastDone, errsOa, len(res.evs)))
 			}
-			if g.end == "err" && errsOa != 1 {
+			if exp != "" && errsOa != 1 {
 				fail("openai-error-lost", s, fmt.Sprintf("error-objects=%d status=%d", errsOa, res.status))
 			}
 			if text != na.text || vc17Calls(calls) != vc17Calls(na.calls) {
 				fail("openai-stream", s, fmt.Sprintf("openai text=%q calls=%s native text=%q calls=%s", text, vc17Calls(calls), na.text, vc17Calls(na.calls)))
 			}
-			if g.end == "ok" && na.last != nil {
+			if g.end == "ok" && exp == "" && na.last != nil {
 				wantFinish := na.last.reason
 				if len(na.calls) > 0 {
 					wantFinish = "tool_calls"
@@ -1248,6 +1373,35 @@ func (h *vc17H) runText(r *zzverif.Rng, pieces []string, exhaustiveMax, samples 
 				x.end, x.k = "err", r.Range(0, nc)
 			default:
 				x.end, x.k = "silent", r.Range(0, nc)
+			}
+			extra = append(extra, x)
+		}
+		// faults outside Completion (Tokenize / Detokenize / load), mostly on complete runs
+		if n <= 3 {
+			for _, f := range []string{"load", "detok", "tok"} {
+				x := base
+				x.fault = f
+				extra = append(extra, x)
+			}
+			for k := 0; k <= nc; k++ {
+				e, s := base, base
+				e.fault, e.end, e.k = "tok", "err", k
+				s.fault, s.end, s.k = "tok", "silent", k
+				extra = append(extra, e, s)
+			}
+			b := base
+			b.fault, b.doneB = "tok", true
+			extra = append(extra, b)
+		} else {
+			x := base
+			x.fault = zzverif.Pick(r, []string{"tok", "tok", "detok", "load"})
+			switch r.Intn(8) {
+			case 0:
+				x.end, x.k = "err", r.Range(0, nc)
+			case 1:
+				x.end, x.k = "silent", r.Range(0, nc)
+			case 2:
+				x.doneB = true
 			}
 			extra = append(extra, x)
 		}
